@@ -107,10 +107,14 @@ MAX_PATHS = 4000
 
 
 class Translator:
-    def __init__(self, z, globs, pow_hook=None):
+    def __init__(self, z, globs, pow_hook=None, attr_hook=None):
         self.z = z
         self.globs = globs
         self.pow_hook = pow_hook
+        # attr_hook(tr, obj, attr, env, why) -> value | None: called when the right-hand side of
+        # `self.attr = <expr>` cannot be translated (floats, '/', ...); lets the caller supply the value
+        # the REAL code computes for the concrete arguments in `env` (or None: stays unsupported)
+        self.attr_hook = attr_hook
         self.paths = 0
 
     # ---- term helpers ------------------------------------------------------------------------
@@ -225,6 +229,15 @@ class Translator:
             else:
                 outs.append(Outcome(st2.pc, "return", r, st2.heap))
         return outs
+
+    def unsupported(self, outs):
+        """(Bool term: some path ends in a construct that could not be translated, [reasons])"""
+        z = self.z
+        alts = [self.conj(list(o.pc)) for o in outs if o.kind == "unsupported"]
+        why = sorted(set(str(o.val) for o in outs if o.kind == "unsupported"))
+        if not alts:
+            return None, []
+        return (alts[0] if len(alts) == 1 else z.Or(*alts)), why
 
     def violation(self, outs):
         """Bool term: some path ends otherwise than by returning a true value"""
@@ -376,7 +389,21 @@ class Translator:
                     else:
                         raise Unsupported("assignment target")
                 return [(st2, None)]
-            return self._lift(self.ev(s.value, st), assign)
+            res = self.ev(s.value, st)
+            if self.attr_hook is not None:
+                fixed = []
+                for st2, v in res:
+                    if isinstance(v, _Unsup):
+                        for t in targets:
+                            if (isinstance(t, ast.Attribute) and isinstance(t.value, ast.Name)
+                                    and isinstance(st2.env.get(t.value.id), Obj)):
+                                r = self.attr_hook(self, st2.env[t.value.id], t.attr, st2.env, v.why)
+                                if r is not None:
+                                    v = r
+                                    break
+                    fixed.append((st2, v))
+                res = fixed
+            return self._lift(res, assign)
         if isinstance(s, ast.Return):
             if s.value is None:
                 return [(st, ("return", None))]
